@@ -815,6 +815,15 @@ func checkCompositeLockstep(w *World, r *Result) {
 		sort.Strings(guards)
 		loops = append(loops, seen{fl, uniqStr(guards)})
 	}
+	// a pass written as a map helper with a callback (`mapTo(st.Fields, func(i, f) string {…})`) selects every field
+	for name := range want {
+		fn := w.Func(name)
+		for _, vr := range virtualRanges(w, fn) {
+			if t := fn.Pkg.TypesInfo.TypeOf(vr.X); t != nil && elemTypeName(t) == modPath+"/analysis.StructField" && vr.ret != nil {
+				loops = append(loops, seen{&fieldLoop{fn: fn, pkg: fn.Pkg, rs: &ast.RangeStmt{For: vr.call.Pos()}, over: es(vr.X), kind: "StructField"}, nil})
+			}
+		}
+	}
 	if len(loops) != 3 {
 		Undecided("AGR-C05k: expected the three composite field loops (isComposite, compositeDecl, compositeConverters), found %d", len(loops))
 	}
